@@ -31,7 +31,7 @@ BP2 = [[0.0, 0.5], [10.0, 4.0], [40.0, 7.0]]      # base_points of manager smB: 
 BASE = dict(constants=dict(c1=2.0, c2=1.0, c3=0.25), points=dict(p1=P1, p2=P2), run=(0.0, 5.0, 1.0))
 EQS = ["s1", "s2", "f1", "b1", "c1", "c2", "c3", "total"]
 ALPHA = ["reg_const", "reg_pts", "run_A0", "sess_A0_const", "sess_B1_step_pts", "sess_A1_step_const", "reset_A0",
-         "rest_B0", "eval_base", "sess_open_A2", "rest_A0_runspecs", "sess_A01_step_first", "reg_again", "rest_A1_start_later_then_zero"]
+         "rest_B0", "eval_base", "sess_open_A2", "rest_A0_runspecs", "sess_A01_step_first", "reg_again", "rest_A1_start_later_then_zero", "sess_A1_const"]
 
 
 def build(constants, points, run):
@@ -131,6 +131,9 @@ class World:
                         rec["constants"].setdefault(k, v)
                     rec.setdefault("points", {}).setdefault("p2", copy.deepcopy(BP2))
                 self.settings[(mgr, sn)] = rec
+        # (the same, through register_scenarios: one call, two names, one settings object)
+        pair = {"constants": {"c1": 3.0}}
+        self.b.register_scenarios({"s1": pair, "s3": pair}, "smA")
         b = self.b
         self.app = BptkServer(__name__, lambda: b)
         self.client = self.app.test_client()
@@ -174,6 +177,14 @@ class World:
             b.begin_session(scenarios=["s0"], scenario_managers=["smA"], settings=copy.deepcopy(st), equations=["s1", "s2"], starttime=0.0, dt=1.0)
             self.merge(("smA", "s0"), st["smA"]["s0"])
             b.run_step()
+            b.run_step()
+            b.end_session()
+            self.touched.append("constants")
+        elif name == "sess_A1_const":
+            # begin-session settings for s1, whose registration shared its settings object with s3: s3 must not notice
+            st = {"smA": {"s1": {"constants": {"c1": v, "c2": v / 2.0}}}}
+            b.begin_session(scenarios=["s1"], scenario_managers=["smA"], settings=copy.deepcopy(st), equations=["s1", "s2"], starttime=0.0, dt=1.0)
+            self.merge(("smA", "s1"), st["smA"]["s1"])
             b.run_step()
             b.end_session()
             self.touched.append("constants")
@@ -241,11 +252,17 @@ class World:
     def audit(self):
         """Compare every untainted scenario and the base model with fresh builds."""
         b = self.b
-        for (mgr, sn), st in sorted(self.settings.items()):
+        todo = [((mgr, sn), st, False) for (mgr, sn), st in sorted(self.settings.items())]
+        # ... and two of them once more after their cache was reset (what a scenario computes afresh must be its own, too)
+        todo += [((mgr, sn), st, True) for (mgr, sn), st in sorted(self.settings.items()) if sn in ("s3", "n")]
+        for (mgr, sn), st, after_reset in todo:
             if (mgr, sn) in self.tainted:
                 continue
             exp = expected(st)
             try:
+                if after_reset:
+                    b.reset_scenario_cache(scenario_manager=mgr, scenario=sn)
+                    self.counters["comparisons_after_cache_reset"] = self.counters.get("comparisons_after_cache_reset", 0) + 1
                 df = b.run_scenarios(scenarios=[sn], scenario_managers=[mgr], equations=list(EQS), return_format="df")
             except Exception as e:
                 return dict(kind="run-exception", scenario=[mgr, sn], error=repr(e)[:200])
